@@ -664,6 +664,11 @@ func readUnion(tr *tokenReader) (Union, error) {
 			// is looked at below, not discarded: only comments that end the member's
 			// own line are skipped, a comment on the next line documents the next member.
 			tr.keepNextToken = false
+			if !tr.Next() {
+				// nothing follows the member: its close curly must not be taken for the union's
+				return union, readError(tr.nextToken, "union definition ended early")
+			}
+			tr.UnNext()
 			skipEndOfLineComments(tr)
 			optNewline(tr)
 
